@@ -1860,7 +1860,10 @@ foamToSExpr0(Foam foam)
 	argf  = foamInfo(foamTag(foam)).argf;
 	sx    = sxCons(foamSExpr(foamTag(foam)), sx);
 
-	isDecl = foamTag(foam) == FOAM_Decl || foamTag(foam) == FOAM_GDecl;
+	/* The `w' field of a Decl is its symeIndex, which means nothing outside
+	 * the compilation that assigned it; that of a GDecl is its rtype,
+	 * which the C generator reads, and must be kept. */
+	isDecl = foamTag(foam) == FOAM_Decl;
 
 	for (si = fi = 0; si < foamArgc(foam); si++, fi++) {
 		if (argf[fi] == '*') fi--;
